@@ -49,6 +49,7 @@ type Options struct {
 	WallLimit   time.Duration
 	LogSMT      string
 	Debug       bool
+	PathLimit   time.Duration
 }
 
 type HarnessResult struct {
@@ -224,6 +225,14 @@ func RunAll(sh *Shared, fns []*ssa.Function, opt Options, nworkers int, progress
 					inputSet: map[int]bool{}, inputObjs: map[string]*Obj{}, stats: &st, funcsEntered: funcs,
 					cuts: map[string]int{}, reached: map[string]bool{}, tables: map[*Cell]string{}}
 				pt0 := time.Now()
+				if opt.PathLimit > 0 {
+					ex.deadline = pt0.Add(opt.PathLimit)
+				}
+				if opt.WallLimit > 0 {
+					if hl := h.started.Add(opt.WallLimit + 5*time.Second); ex.deadline.IsZero() || hl.Before(ex.deadline) {
+						ex.deadline = hl
+					}
+				}
 				completed, errs := ex.runPath(h.fn)
 				var sample map[string]uint64
 				mu.Lock()
